@@ -16,6 +16,14 @@ structure St where
   keyed : Bool := false
   rule : KeyRule := .consistentOnly
   earlier : List Obs := []
+  /-- basic consistent partitioners: every record must be consistent; `manual`: ManualPartitioner -/
+  mustAll : Bool := false
+  manual : Bool := false
+  /-- `bc`: the whole record is hashed, a nil key as the empty one -/
+  nilAsEmpty : Bool := false
+  /-- partitions of the crafted topic that already hold an open batch (client groups) -/
+  openBatch : List Nat := []
+  selEarlier : List SelObs := []
 
 def parseKey (s : String) : Option (Option (List UInt8)) :=
   if s = "-" then some none else (parseHex? s).map some
@@ -52,6 +60,42 @@ def optStr : Option Int → String
   | none => "panic"
 
 def verdictStr (ok : Bool) (key : String) : String := if ok then "1" else "0:" ++ key
+
+def parseCsvNat (s : String) : List Nat :=
+  if s = "_" then [] else (s.splitOn ",").filterMap (·.toNat?)
+
+/-- the key the Spec attributes to a record of this group (`none`: not mapped by key). -/
+def St.okey (st : St) (key : Option (List UInt8)) : Option (List UInt8) :=
+  if st.nilAsEmpty then some (key.getD []) else if st.keyed then key else none
+
+def selStr : Sel → String
+  | .failLoadErr => "err:load"
+  | .failNoUsable => "err:nousable"
+  | .failInvalid p l => s!"err:invalid:{p}:{l}"
+  | .panic => "panic"
+  | .placed _ part _ => s!"part={part.num}"
+
+/-- implementation output of a `sel` / `e2e` op: `some (some p)` placed on p, `some none` = failed with `kind`. -/
+def parsePlaced (impl : String) : Option Nat :=
+  if impl.startsWith "part=" then (impl.drop 5).toString.toNat? else none
+
+/-- Spec verdict of one record produced through a client. -/
+def selVerdict (st : St) (key : Option (List UInt8)) (rpart : Int) (nAll : Nat) (writable : List Nat)
+    (fatal : Bool) (impl : String) : String × Option SelObs :=
+  match parsePlaced impl with
+  | some p =>
+    if fatal then ("0:placed-despite-load-error", none)
+    else if st.manual then (verdictStr (manualSelOk nAll rpart (some (p : Int))) "manual-partition", none)
+    else
+      let o : SelObs := ⟨st.okey key, nAll, writable.map (fun (w : Nat) => (w : Int)), p⟩
+      -- only observations that satisfy the Spec become the reference for later records of the group
+      if selOk st.rule st.selEarlier o then ("1", if o.key.isSome then some o else none)
+      else ("0:" ++ selFailKey st.rule st.selEarlier o, none)
+  | none =>
+    if impl = "err:load" then (verdictStr fatal "unexpected-failure", none)
+    else if impl.startsWith "err:invalid:" then
+      (verdictStr (st.manual && !fatal && manualSelOk nAll rpart none) "invalid-choice", none)
+    else ("0:unexpected-failure", none)
 
 def step (st : St) (line : String) : St × String :=
   let (op, impl) := splitBar line
@@ -91,11 +135,18 @@ def step (st : St) (line : String) : St × String :=
       (st, s!"{optStr m} | {v} | {boolStr (n ≥ 2)}")
     | _, _ => (st, "bad-op | - | 0")
   | "reset" :: pt :: mode :: hs :: rest =>
-    let real := mode == "real"
+    let real := mode == "real" || mode == "creal" || mode == "e2e"
     let mk (k : PKind) (adaptive keyed : Bool) : St × String :=
       ({ kind := some k, ps := k.init, real := real, adaptive := adaptive, keyed := keyed,
          rule := if keyed then ruleOf hs else .consistentOnly, earlier := [] }, "ok | - | 0")
     match pt, rest with
+    | "mn", _ => ({ kind := some PKind.manual, ps := .unit, real := real, mustAll := true, manual := true }, "ok | - | 0")
+    | "bc", _ =>
+      ({ kind := some (PKind.basicHash (hasherFn hs)), ps := .unit, real := real, mustAll := true, nilAsEmpty := true,
+         rule := ruleOf hs }, "ok | - | 0")
+    | "df", _ =>
+      ({ kind := some (.uniformBytes ⟨65536, true, true, hasherFn "d"⟩), ps := .ub {}, real := real, adaptive := true,
+         keyed := true, rule := .kafkaDefault }, "ok | - | 0")
     | "rr", _ => mk .roundRobin false false
     | "st", _ => mk .sticky false false
     | "sk", _ => mk (.stickyKey (hasherFn hs)) false true
@@ -114,7 +165,7 @@ def step (st : St) (line : String) : St × String :=
   | ["p", k, vlen, hdrs, n, backups, draws] =>
     match st.kind, parseKey k, vlen.toNat?, n.toInt? with
     | some kind, some key, some vlen, some n =>
-      let rec_ : Rec := ⟨key, vlen, parseHdrs hdrs⟩
+      let rec_ : Rec := ⟨key, vlen, parseHdrs hdrs, 0⟩
       let mapping := parseCsvInt backups
       let drawsL := (parseCsvInt draws).map Int.toNat
       let implPick := impl.toInt?
@@ -145,6 +196,69 @@ def step (st : St) (line : String) : St × String :=
         | none => ("0:panic", st.earlier)
       ({ st with ps := ps', earlier := earlier' }, s!"{mout} | {verdict} | {boolStr (n ≥ 2)}")
     | _, _, _, _ => (st, "bad-op | - | 0")
+  | ["rc", k] =>
+    match st.kind, parseKey k with
+    | some kind, some key =>
+      let m := kind.requiresConsistency ⟨key, 0, [], 0⟩
+      let must := (st.keyed && key.isSome) || st.mustAll
+      let v := match impl with
+        | "true" => verdictStr (rcOk must true) "keyed-record-not-consistent"
+        | "false" => verdictStr (rcOk must false) "keyed-record-not-consistent"
+        | _ => "0:requires-consistency-panic"
+      (st, s!"{if m then "true" else "false"} | {v} | {boolStr (key.isSome || st.keyed || st.mustAll)}")
+    | _, _ => (st, "bad-op | - | 0")
+  | ["sel", k, vlen, hdrs, rpart, nAll, writable, buffered, loaderr, draw] =>
+    match st.kind, parseKey k, vlen.toNat?, rpart.toInt?, nAll.toNat? with
+    | some kind, some key, some vlen, some rpart, some nAll =>
+      let rec_ : Rec := ⟨key, vlen, parseHdrs hdrs, rpart⟩
+      let bufs := parseCsvInt buffered
+      let parts : List Part := (List.range nAll).map fun i =>
+        ⟨i, bufs.getD i 0, if st.openBatch.contains i then .fits else .newBatch⟩
+      let wl := parseCsvNat writable
+      let t : TopicData := ⟨loaderr == "f", parts, wl.filterMap (parts[·]?)⟩
+      let consistent := kind.requiresConsistency rec_
+      let exact := consistent || t.fatalLoadErr || (!st.real && !st.adaptive)
+      let draws := List.replicate (nAll + 1) (draw.toNat?.getD 0)
+      let implPart := parsePlaced impl
+      let (ps', mout) :=
+        if exact then
+          match kind.doPartition st.ps t rec_ draws draws with
+          | .placed s part b => (s, selStr (.placed s part b))
+          | o => (st.ps, selStr o)
+        else if st.real then (st.ps, "*")
+        else
+          -- injected source, adaptive uniform bytes, unkeyed record: the float pick is not predicted
+          let mapping := kind.mappingOf rec_ t
+          match implPart with
+          | some p =>
+            match mapping.findIdx? (·.num == p) with
+            | some idx =>
+              match kind.acceptN st.ps rec_ mapping.length (mapping.map (·.buffered)) idx with
+              | some s => (s, impl)
+              | none => (st.ps, "not-accepted")
+            | none => (st.ps, "not-accepted")
+          | none => (st.ps, "not-accepted")
+      let (verdict, obs) := selVerdict st key rpart nAll wl t.fatalLoadErr impl
+      let st' := { st with ps := ps',
+                           openBatch := match implPart with | some p => p :: st.openBatch | none => st.openBatch,
+                           selEarlier := match obs with | some o => o :: st.selEarlier | none => st.selEarlier }
+      (st', s!"{mout} | {verdict} | {boolStr (nAll ≥ 2)}")
+    | _, _, _, _, _ => (st, "bad-op | - | 0")
+  | ["e2e", nAll, leaderless, k] =>
+    match st.kind, parseKey k, nAll.toNat? with
+    | some kind, some key, some nAll =>
+      let rec_ : Rec := ⟨key, 1, [], 0⟩
+      let dead := parseCsvNat leaderless
+      let parts : List Part := (List.range nAll).map fun i => ⟨i, 0, .fits⟩
+      let wl := (List.range nAll).filter (!dead.contains ·)
+      let t : TopicData := ⟨false, parts, wl.filterMap (parts[·]?)⟩
+      let mout :=
+        if kind.requiresConsistency rec_ then selStr (kind.doPartition kind.init t rec_ [] []) else "*"
+      let (verdict, obs) := selVerdict st key 0 nAll wl false impl
+      let st' := { st with selEarlier := match obs with | some o => o :: st.selEarlier | none => st.selEarlier }
+      (st', s!"{mout} | {verdict} | {boolStr (nAll ≥ 2 && !dead.isEmpty)}")
+    | _, _, _ => (st, "bad-op | - | 0")
+  | ["e2eflush"] => (st, "ok | - | 0")
   | ["prod", k, pick] =>
     match k.toNat?, pick.toInt? with
     | some k, some pick =>
